@@ -651,13 +651,15 @@ class ListItem(BlockToken):
                 # the line doesn't have the indentation to show that it belongs to
                 # the list item, but it should be included anyway by lazy continuation...
                 # ...unless it's the start of another token
-                if any(token_type.check_interrupts_paragraph(lines) for token_type in breaking_tokens):
+                # (a table row that begins with a list marker is the first line of a new list item)
+                marker_info = cls.parse_marker(next_line)
+                if any(token_type.check_interrupts_paragraph(lines) for token_type in breaking_tokens
+                       if not (token_type is Table and marker_info is not None)):
                     if newline_count:
                         lines.backstep()
                         del line_buffer[-newline_count:]
                     break
                 # ...or it's a new list item
-                marker_info = cls.parse_marker(next_line)
                 if marker_info is not None:
                     next_marker = marker_info
                     break
